@@ -89,7 +89,7 @@ def replay_file(path):
         if e0["cmd"] == "merge":
             ev = cli.run_merge_case(e0["id"], e0["c"], e0.get("spec_rc"), c["seed"], tmproot)
         else:
-            ev = cli.run_loop_case(e0["id"], {"cmd": e0["cmd"], "files": e0["files"]}, c["seed"], tmproot)
+            ev = cli.run_loop_case(e0["id"], {"cmd": e0["cmd"], "files": e0["files"], "mode": e0.get("mode", "files")}, c["seed"], tmproot)
         print(json.dumps(ev, indent=1)[:3000])
         ev = {k: v for k, v in ev.items() if k not in ("stderr_tail", "stdout_head", "spec_rc")}
         bad, _ = pipeline.judge([ev], "replay", module="Trace_Cli")
